@@ -3,6 +3,7 @@
 
 import ast
 
+from . import flagsrule
 from ..base import AnalysisError, Defs, U, bool_guards, own_nodes, stmts
 from ..callgraph import CallGraph
 from ..e4 import TS, Typing, classify
@@ -34,6 +35,8 @@ def run(repo, res):
     res.rule("R08.1", "in every function reachable from the dating API (output assembly excluded) no accessor classified irrelevant data (metadata, schemas, states, populations, provenance, migrations, mutation times/parents, tables) is applied to a tskit-typed value; backstop: no attribute with such a name on any receiver")
     res.rule("R08.2", "site positions are read only as sites_position[<mutations_site>]; num_sites / sites() / Tree.sites() (which expose monomorphic sites) do not appear")
     res.rule("R08.3", "individual linkage (nodes_individual, individuals()) is used only behind a test of the unphased mask, and that mask is ~np.full(num_individuals, singletons_phased)")
+    res.rule("R08.4", "dates do not depend on node-flag bits other than NODE_IS_SAMPLE: every read of nodes_flags / .flags is a bitwise test or a whole-column move, never a comparison of the whole word")
+    flagsrule.run(repo, res, "R08.4")
     cg, roots, reach = scope(repo)
     ty = engine(repo, Typing)
     res.count("functions_in_scope", len(reach))
@@ -119,7 +122,7 @@ def r083(repo, res, ty, reach):
                     res.require(guarded, "R08.3", cons, f"individual-derived value {sorted(used)} is used without a dominating test of {m}[...]: with phased singletons (the default) individual information would still influence the result", repo.loc(f, s))
 
 
-VARIANTS = [
+VARIANTS = [dict(v, rule="R08.4") for v in flagsrule.VARIANTS_C03] + [
     dict(name="reads-population", mod="variational", expect="fire", rule="R08.1", old="        self.edge_parents = ts.edges_parent\n", new="        self.edge_parents = ts.edges_parent\n        self.node_pops = ts.nodes_population\n"),
     dict(name="reads-derived-state", mod="discrete", expect="fire", rule="R08.1", old="        for m in ts.mutations():\n            if m.edge != tskit.NULL:", new="        for m in ts.mutations():\n            if m.edge != tskit.NULL and m.derived_state != '':"),
     dict(name="reads-metadata", mod="prior", expect="fire", rule="R08.1", old="        self.sample_node_set = set(self.ts.samples())", new="        self.sample_node_set = set(self.ts.samples())\n        self.md = self.ts.metadata"),
